@@ -228,6 +228,9 @@ def c_log_softmax(ctx, x):
   return IdxV(LOGP(POS, CLS), x.axes)
 
 
+ISNEGINF = z3.Function('is_neg_inf', R, z3.BoolSort())
+ISPOSINF = z3.Function('is_pos_inf', R, z3.BoolSort())
+POSINF = z3.Real('pos_inf')
 SOFTP = z3.Function('softmax_f32', I, I, R)   # jax.nn.softmax(pred)[pos, cls] as computed in float32
 
 
@@ -262,7 +265,14 @@ def globals14():
                      array=Handler(lambda ctx, x, copy=None, dtype=None: x, 'jnp.array'),
                      maximum=Handler(lambda ctx, a, b: lift_idx(zmax, a, b), 'jnp.maximum'),
                      where=Handler(lambda ctx, c, a, b: where_idx(c, a, b), 'jnp.where'),
-                     log=Handler(c_log, 'jnp.log'))
+                     log=Handler(c_log, 'jnp.log'),
+                     # +-inf are not reals: an uninterpreted classifier and two opaque constants (nothing is assumed about
+                     # arithmetic with them, so an identity that holds only through them is not provable)
+                     isneginf=Handler(lambda ctx, x: IdxV(ISNEGINF(as_idx(x).num()), as_idx(x).axes), 'jnp.isneginf'),
+                     isposinf=Handler(lambda ctx, x: IdxV(ISPOSINF(as_idx(x).num()), as_idx(x).axes), 'jnp.isposinf'),
+                     isinf=Handler(lambda ctx, x: IdxV(z3.Or(ISNEGINF(as_idx(x).num()), ISPOSINF(as_idx(x).num())),
+                                                       as_idx(x).axes), 'jnp.isinf'),
+                     inf=POSINF)
   g['jax'].attrs['nn'] = Module('jax.nn', {'one_hot': Handler(c_one_hot, 'one_hot'),
                                            'log_softmax': Handler(c_log_softmax, 'log_softmax'),
                                            'softmax': Handler(c_softmax, 'softmax')})
